@@ -204,6 +204,143 @@ class Unmodelled(Exception):
     pass
 
 
+class Unprintable(Exception):
+    pass
+
+
+import re as _re
+_IDENT = _re.compile(r"^[a-zA-Z_][a-zA-Z0-9_]*$")
+
+
+def unesc(raw):
+    out, i = [], 0
+    while i < len(raw):
+        if raw[i] == "\\" and i + 1 < len(raw):
+            out.append(raw[i + 1])
+            i += 2
+        else:
+            out.append(raw[i])
+            i += 1
+    return "".join(out)
+
+
+def micros_text(us):
+    d = EPOCH + datetime.timedelta(microseconds=us)
+    txt = d.strftime("%Y-%m-%dT%H:%M:%S")
+    if len(txt) != 19:
+        raise Unprintable("year")
+    if d.microsecond:
+        txt += (".%06d" % d.microsecond).rstrip("0")
+    return txt + "Z"
+
+
+def dump_const_to_ast(k):
+    t = k[0]
+    if t == "int":
+        return ("int", k[1], False)
+    if t == "float":
+        d = decimal.Decimal(k[1])
+        if not d.is_finite():
+            raise Unprintable("float")
+        txt = format(d, "f")
+        return ("float", txt if "." in txt else txt + ".0")
+    if t == "str":
+        return ("str", unesc(k[1]))
+    if t == "bool":
+        return ("bool", bool(k[1]))
+    if t == "time":
+        return ("time", micros_text(k[1]))
+    if t in ("hex", "bin"):
+        return (t, k[1])
+    if t == "list":
+        return ("list", [dump_const_to_ast(x) for x in k[1]])
+    raise Unprintable(str(k)[:40])
+
+
+def dump_to_ast(d):
+    """the abstract AST of a dump produced by c09_impl (parse or normal form); Unprintable when it
+    cannot be written back as pattern text by print_o"""
+    t = d[0]
+    if t == "atom":
+        steps = []
+        for n, st in enumerate(d[2]):
+            if st[0] == "i":
+                steps.append(("i", st[1]))
+            elif st[0] == "k":
+                name = st[1]
+                if name == "*" and n > 0:
+                    steps.append(("star",))
+                elif len(name) >= 2 and name[0] == "'" and name[-1] == "'":
+                    steps.append(("q", unesc(name[1:-1])))
+                elif _IDENT.match(name):
+                    steps.append(("k", name))
+                else:
+                    steps.append(("q", unesc(name)))
+            else:
+                raise Unprintable("step")
+        if not steps or steps[0][0] not in ("k", "q") or d[3] not in COPS or d[3] == "<>":
+            raise Unprintable("atom")
+        return ("atom", d[1], steps, d[3], bool(d[4]), dump_const_to_ast(d[5]))
+    if t in ("and", "or", "oand", "oor", "ofby"):
+        kids = [dump_to_ast(x) for x in d[1]]
+        if not kids:
+            raise Unprintable("empty node")
+        return kids[0] if len(kids) == 1 else (t, kids)
+    if t in ("paren", "oparen"):
+        return dump_to_ast(d[1])
+    if t == "obs":
+        return ("obs", dump_to_ast(d[1]))
+    if t == "qual":
+        q = d[2]
+        if q[0] == "repeat" and q[1][0] == "int":
+            qq = ("repeat", q[1][1])
+        elif q[0] == "within" and q[1][0] == "int":
+            qq = ("within", q[1][1])
+        elif q[0] == "within" and q[1][0] == "float":
+            qq = ("withinf", dump_const_to_ast(q[1])[1])
+        elif q[0] == "startstop" and q[1][0] == "time" and q[2][0] == "time":
+            qq = ("startstop", micros_text(q[1][1]), micros_text(q[2][1]))
+        else:
+            raise Unprintable("qualifier")
+        return ("qual", dump_to_ast(d[1]), qq)
+    raise Unprintable(str(t))
+
+
+def absorb_boundary(rng):
+    """OR of two AND / FOLLOWEDBY nodes over a few simple operands, at the boundary of the
+    containment tests of the observation-level absorption: repeated operands (distinct
+    bindings), sub-multisets, sub-sequences, swapped order, a qualified operand"""
+    g = Gen(rng, 1)
+    names = ["p", "q", "r", "s"]
+    base = []
+    for i in range(rng.choice([2, 3, 3, 4])):
+        typ = rng.choice(["a", "file", "x_y"])
+        base.append(("obs", ("atom", typ, [("k", names[i])], "=", False, ("int", rng.choice([1, 2]), False))))
+    if rng.random() < 0.15:
+        base[0] = ("qual", base[0], ("repeat", 2))
+    op = rng.choice(["oand", "ofby"])
+    big = [rng.choice(base) for _ in range(rng.choice([2, 3, 3, 4]))]
+    x = rng.random()
+    if x < 0.35:            # a sub-collection (kept in order)
+        small = [b for b in big if rng.random() < 0.6] or [big[0]]
+    elif x < 0.6:           # one operand repeated once more than in the other node
+        small = big[:]
+        small.insert(rng.randrange(len(small) + 1), rng.choice(big))
+        if rng.random() < 0.5:
+            small.pop(rng.randrange(len(small)))
+    elif x < 0.8:           # same operands, another order
+        small = big[:]
+        rng.shuffle(small)
+    else:
+        small = [rng.choice(base) for _ in range(rng.choice([1, 2, 3]))]
+    c1 = small[0] if len(small) == 1 else (op, small)
+    c2 = big[0] if len(big) == 1 else (op if rng.random() < 0.85 else ("oand" if op == "ofby" else "ofby"), big)
+    kids = [c1, c2] if rng.random() < 0.5 else [c2, c1]
+    if rng.random() < 0.3:
+        kids.insert(rng.randrange(3), rng.choice(base))
+    return ("oor", kids)
+
+
 COPS = {"=": "OpEq", "!=": "OpNeq", "<>": "OpNeq2", "<": "OpLt", "<=": "OpLe", ">": "OpGt", ">=": "OpGe", "IN": "OpIn",
         "LIKE": "OpLike", "MATCHES": "OpMatches", "ISSUBSET": "OpSubset", "ISSUPERSET": "OpSuperset"}
 
@@ -262,7 +399,10 @@ def g_q(q):
     if q[0] == "repeat" and q[1][0] == "int":
         return "QRepeat %s" % zlit(q[1][1])
     if q[0] == "within" and q[1][0] == "int":
-        return "QWithin %s" % zlit(q[1][1])
+        return "QWithin %s 0%%N" % zlit(q[1][1])
+    if q[0] == "within" and q[1][0] == "float":
+        m, e = float_me(q[1][1])
+        return "QWithin %s %d%%N" % (zlit(m), e)
     if q[0] == "startstop" and q[1][0] == "time" and q[2][0] == "time":
         return "QStartStop %s %s" % (zlit(q[1][1]), zlit(q[2][1]))
     raise Unmodelled("qualifier %r" % (q,))
@@ -333,6 +473,9 @@ def s_q(q):
     if q[0] == "repeat":
         return "R%d" % q[1][1]
     if q[0] == "within":
+        if q[1][0] == "float":
+            m, e = float_me(q[1][1])
+            return ("W%d" % m) if e == 0 else ("Wf%de%d" % (m, e))
         return "W%s" % q[1][1]
     if q[0] == "startstop":
         return "S%d/%d" % (q[1][1], q[2][1])
@@ -546,6 +689,8 @@ class Gen:
         if k == "repeat":
             return ("repeat", r.choice([1, 2, 2, 3, 5]))
         if k == "within":
+            if r.random() < 0.12:
+                return ("withinf", r.choice(["5.0", "5.5", "0.5", "60.00", "1.25", "5.50"]))
             return ("within", r.choice([0, 1, 5, 5, 60, 3600]))
         a, b = sorted(r.sample(TIMES[:-1], 2), key=time_micros)
         return ("startstop", a, b)
